@@ -217,31 +217,45 @@ func short(s string) string {
 	return s
 }
 
-// checkScopes is the direct oracle: the outcome in the full scope, in the scope
+// baInfo: what is needed to decide whether a failure of the dynblock walkers is an instance of the
+// pinned finding "no variables are reported for blocks decoded by hcldec.BlockAttrsSpec" and nothing else.
+//   free      root names with a free occurrence INSIDE the content of a block decoded by BlockAttrsSpec
+//             (the names a repaired walker would add), by the harness's own free-variable computation;
+//   restClean the same oracle, run on the body with the content of those blocks removed (for_each,
+//             labels and iterator of a dynamic block kept), finds nothing: whatever else the body
+//             contains is reported completely.
+// A failure is filed under the known kind only when restClean holds and it is explained by free:
+// pruning to R + free restores the outcome / the unreported variable that matters is in free.
+type baInfo struct {
+	free      map[string]bool
+	restClean bool
+}
+
+type scopeFail struct {
+	base, detail, variable string
+	panicked               bool
+}
+
+// scopeFailures is the direct oracle: the outcome in the full scope, in the scope
 // pruned to the reported roots, and with every unreported variable perturbed,
-// must be identical.  prefix distinguishes the Expand-only variant.
-func checkScopes(rep *hv.Report, r *hv.Rng, prefix, input string, ctx *hcl.EvalContext, R map[string]bool, f evalFn) (full string, ok bool) {
+// must be identical.
+func scopeFailures(r *hv.Rng, ctx *hcl.EvalContext, R map[string]bool, f evalFn) (full string, fails []scopeFail, evals map[string]int, fatal bool) {
+	evals = map[string]int{}
 	full, p := safeEval(f, ctx)
 	if p != nil {
-		rep.Fail(hv.Failure{Kind: "panic", Detail: fmt.Sprintf("%sfull scope: %v", prefix, p), Input: input})
-		return "", false
+		return "", []scopeFail{{base: "panic", detail: fmt.Sprintf("full scope: %v", p), panicked: true}}, evals, true
 	}
 	if again, _ := safeEval(f, ctx); again != full {
-		rep.Hist(prefix + "nondeterministic-outcome")
-		rep.Fail(hv.Failure{Kind: "harness-nondeterminism", Detail: prefix + "two evaluations in the same scope differ: " + firstDiff(full, again), Input: input})
-		return full, false
+		return full, []scopeFail{{base: "harness-nondeterminism", detail: "two evaluations in the same scope differ: " + firstDiff(full, again)}}, evals, true
 	}
 	pr, p := safeEval(f, pruneCtx(ctx, R))
 	if p != nil {
-		rep.Fail(hv.Failure{Kind: "panic", Detail: fmt.Sprintf("%spruned scope {%s}: %v", prefix, rootList(R), p), Input: input})
-		return full, false
+		return full, []scopeFail{{base: "panic", detail: fmt.Sprintf("pruned scope {%s}: %v", rootList(R), p), panicked: true}}, evals, true
 	}
-	ok = true
-	rep.Hist(prefix + "eval:pruned")
+	evals["eval:pruned"]++
 	if pr != full {
-		ok = false
-		rep.Fail(hv.Failure{Kind: prefix + "pruned-scope-differs",
-			Detail: fmt.Sprintf("reported roots {%s}; first difference %s\nfull scope gives\n%s\npruned scope gives\n%s", rootList(R), firstDiff(full, pr), short(full), short(pr)), Input: input})
+		fails = append(fails, scopeFail{base: "pruned-scope-differs",
+			detail: fmt.Sprintf("reported roots {%s}; first difference %s\nfull scope gives\n%s\npruned scope gives\n%s", rootList(R), firstDiff(full, pr), short(full), short(pr))})
 	}
 	for _, nm := range allNames(ctx) {
 		if R[nm] {
@@ -250,18 +264,66 @@ func checkScopes(rep *hv.Report, r *hv.Rng, prefix, input string, ctx *hcl.EvalC
 		old, _ := lookup(ctx, nm)
 		nv := perturbed(r, old)
 		out, p := safeEval(f, perturbCtx(ctx, nm, nv))
-		rep.Hist(prefix + "eval:unreported-perturbed")
+		evals["eval:unreported-perturbed"]++
 		if p != nil {
-			rep.Fail(hv.Failure{Kind: "panic", Detail: fmt.Sprintf("%s%s perturbed: %v", prefix, nm, p), Input: input})
-			ok = false
+			fails = append(fails, scopeFail{base: "panic", detail: fmt.Sprintf("%s perturbed: %v", nm, p), panicked: true})
 			continue
 		}
 		if out != full {
-			ok = false
-			rep.Fail(hv.Failure{Kind: prefix + "unreported-variable-matters",
-				Detail: fmt.Sprintf("reported roots {%s}; changing unreported %q to %s changes the outcome; first difference %s\nfrom\n%s\nto\n%s", rootList(R), nm, hv.DumpVal(nv), firstDiff(full, out), short(full), short(out)), Input: input,
-				Extra: map[string]string{"variable": nm}})
+			fails = append(fails, scopeFail{base: "unreported-variable-matters", variable: nm,
+				detail: fmt.Sprintf("reported roots {%s}; changing unreported %q to %s changes the outcome; first difference %s\nfrom\n%s\nto\n%s", rootList(R), nm, hv.DumpVal(nv), firstDiff(full, out), short(full), short(out))})
 		}
+	}
+	return full, fails, evals, false
+}
+
+// checkScopes runs the oracle and reports.  prefix distinguishes the Expand-only variant; ba (nil
+// except for dynblock bodies under a spec with a BlockAttrsSpec) decides the "blockattrs:" kinds.
+func checkScopes(rep *hv.Report, r *hv.Rng, prefix, input string, ctx *hcl.EvalContext, R map[string]bool, f evalFn, ba *baInfo) (full string, ok bool) {
+	full, fails, evals, fatal := scopeFailures(r, ctx, R, f)
+	for k, n := range evals {
+		for i := 0; i < n; i++ {
+			rep.Hist(prefix + k)
+		}
+	}
+	ok = len(fails) == 0
+	for _, sf := range fails {
+		kind := prefix + sf.base
+		switch {
+		case sf.base == "panic":
+			kind = "panic"
+			sf.detail = prefix + sf.detail
+		case sf.base == "harness-nondeterminism":
+			kind = sf.base
+			sf.detail = prefix + sf.detail
+			rep.Hist(prefix + "nondeterministic-outcome")
+		case ba != nil && ba.restClean && sf.base == "pruned-scope-differs":
+			// explained iff adding the names used inside BlockAttrsSpec blocks restores the outcome
+			R2, added := map[string]bool{}, false
+			for k := range R {
+				R2[k] = true
+			}
+			for k := range ba.free {
+				if !R2[k] {
+					R2[k], added = true, true
+				}
+			}
+			if added {
+				if pr2, p := safeEval(f, pruneCtx(ctx, R2)); p == nil && pr2 == full {
+					kind = "blockattrs:" + kind
+				}
+			}
+		case ba != nil && ba.restClean && sf.base == "unreported-variable-matters" && ba.free[sf.variable]:
+			kind = "blockattrs:" + kind
+		}
+		fl := hv.Failure{Kind: kind, Detail: sf.detail, Input: input}
+		if sf.variable != "" {
+			fl.Extra = map[string]string{"variable": sf.variable}
+		}
+		rep.Fail(fl)
+	}
+	if fatal {
+		return full, false
 	}
 	// sensitivity of the oracle (not a check): does perturbing a REPORTED variable show?
 	rs := hv.SortedKeys(R)
